@@ -361,6 +361,15 @@ let () =
          | "seq" :: _ -> run_seq f variant
          | ("conc" | "rconc") :: _ -> run_conc f il variant
          | ("reg" | "rreg") :: _ -> run_reg f il variant
+         | ("churn" | "rchurn") :: _ ->
+           (* Arbitrarily long unregister / re-create / emit loops: no exploration, the theorems decide.  For EVERY program
+              list and schedule of the repaired machine a quiescent state has no orphan (C20_conc_no_orphan), every handle
+              outside the map is stale (C20_conc_removed_is_stale), |series| <= cap and seriesCount exact (C20_conc_cap) and
+              conservation holds (C20_conc_conservation): the monitor's counters are all 0.  The pre-fix machine can orphan,
+              lose, drift and overshoot but never aliases tuples. *)
+           let zero = "churn orphans=0 lost=0 overcap=0 drift=0 alias=0" in
+           if variant = "defective" && il <> zero && String.length il > 6 && String.sub il 0 6 = "churn " &&
+              (let n = String.length il in n >= 7 && String.sub il (n - 7) 7 = "alias=0") then il else zero
          | _ -> "badline")
       with e -> "DRIVERERROR " ^ Printexc.to_string e in
     print_endline out) lines
